@@ -20,7 +20,7 @@ from .. import e2, e3
 from .. import universe as U
 from ..common import HarnessError, Result, Violation, pmap, rotate, silence_labtech
 from ..explore import Chooser, explore
-from ..faults import LineInjector
+from ..faults import LineInjector, SignalInjector
 from ..spec import mk_spec
 from ..spy import run_once_serial
 
@@ -35,15 +35,19 @@ def want(code):
 def site_key(site):
     """(function qualified name, stripped source text) - stable under unrelated edits that shift lines."""
     fn, lineno, qual = site[0], site[1], site[2]
+    kind = site[4] if len(site) > 4 else None
+    if fn == '<os>':
+        return f'<os-call>:{qual}'
     text = linecache.getline(fn, lineno).strip()
-    return f'{os.path.relpath(fn, LT_DIR)}:{qual}:{text}'
+    return f'{os.path.relpath(fn, LT_DIR)}:{qual}:{text}' + (f' [{kind}]' if kind else '')
 
 
 class Interrupts:
     """Context-manager factory handed to the harness: installs the injector around run_tasks."""
 
-    def __init__(self, k1, k2=None):
+    def __init__(self, k1, k2=None, signal=False):
         self.k1, self.k2 = k1, k2
+        self.signal = signal      # interrupt instants = the interpreter's real signal-check points instead of line boundaries
         self.inj = None
         self.world = None
         self.at_first = None     # ground truth at the first interrupt
@@ -96,8 +100,11 @@ class Interrupts:
             if hasattr(self.backend, 'events'):
                 self.backend.events.append(('interrupt', n))
             return KeyboardInterrupt()
-        self.inj = LineInjector(want, at=self.k1, second_at=self.k2, exc_factory=fire, gate=gate,
-                                sched=getattr(w, 'sched', None), switch_files=(os.path.join('runners', 'process.py'),))
+        cls = SignalInjector if self.signal else LineInjector
+        self.inj = cls(want, at=self.k1, second_at=self.k2, exc_factory=fire, gate=gate,
+                       sched=getattr(w, 'sched', None), switch_files=(os.path.join('runners', 'process.py'),))
+        if self.signal and w is not None:
+            w.signal_hook = self.inj.virtual_point
         if self.k1 is None:
             self.inj.record_sites = True
         return self.inj
@@ -213,15 +220,17 @@ def run_case(args):
             seen.add(key)
             res.append((key, msg + f' | cfg={cfg.brief()} k={k1},{k2} choices={choices}',
                         {'kind': kind, 'cfg': cfg.to_json(), 'k1': k1, 'k2': k2, 'choices': choices}))
-    if kind in ('serial', 'serial+displays'):
-        intr = Interrupts(k1, k2)
-        obs = run_once_serial(cfg, around_run=intr, displays=(kind != 'serial'))
+    sig = kind.endswith('+sig')
+    bkind = kind[:-4] if sig else kind
+    if bkind in ('serial', 'serial+displays'):
+        intr = Interrupts(k1, k2, signal=sig)
+        obs = run_once_serial(cfg, around_run=intr, displays=(bkind != 'serial'))
         handle(obs, intr, [])
     else:
-        thr = kind.endswith('+thr')
+        thr = bkind.endswith('+thr')
 
         def run(ch):
-            intr = Interrupts(k1, k2)
+            intr = Interrupts(k1, k2, signal=sig)
             obs = e3.run_once_e3(cfg, ch, around_run=intr, threaded=thr)
             return obs, intr
         st = explore(run, lambda ch, r: handle(r[0], r[1], ch.choices), max_deviations=max_dev,
@@ -235,12 +244,14 @@ def count_events(kind, cfg, max_dev):
     """Baseline: line-event counts (and sites) without injection, maximum over schedules."""
     silence_labtech()
     best = (0, [])
-    if kind in ('serial', 'serial+displays'):
-        intr = Interrupts(None)
-        run_once_serial(cfg, around_run=intr, displays=(kind != 'serial'))
+    sig = kind.endswith('+sig')
+    bkind = kind[:-4] if sig else kind
+    if bkind in ('serial', 'serial+displays'):
+        intr = Interrupts(None, signal=sig)
+        run_once_serial(cfg, around_run=intr, displays=(bkind != 'serial'))
         return intr.inj.count, intr.inj.sites
 
-    if kind.endswith('+thr'):
+    if bkind.endswith('+thr'):
         # threaded slice: default schedule; the interesting positions are the main-thread events
         # at which a helper thread is alive (= the consumer_thread.join() lines)
         intr = Interrupts(None)
@@ -248,7 +259,7 @@ def count_events(kind, cfg, max_dev):
         return intr.inj.count, intr.inj.sites, list(intr.inj.helper_live_at)
 
     def run(ch):
-        intr = Interrupts(None)
+        intr = Interrupts(None, signal=sig)
         e3.run_once_e3(cfg, ch, around_run=intr)
         return intr
 
@@ -291,6 +302,13 @@ def harnesses(tier):
                                     liveness_choice=False), dev))
         out.append((be, e3.E3Config(base=e2.Config(spec=chain, requested=req3, precached=(0, 1, 2), bust_cache=True), backend=be, max_workers=2,
                                     liveness_choice=False), dev))
+    # signal-faithful slice: interrupt instants are the interpreter's real signal-check points (function
+    # entry, return of a C call, loop back-edge - also *inside* a statement) plus instants inside the
+    # OS-level calls of the parent (Process.start after the worker exists, Queue.get, is_alive, terminate, join)
+    out.append(('serial+sig', e2.Config(spec=chain, requested=req3), 0))
+    for be in ('fork', 'spawn'):
+        out.append((be + '+sig', e3.E3Config(base=e2.Config(spec=chain, requested=req3), backend=be, max_workers=2, liveness_choice=False), dev))
+    out.append(('fork+sig', e3.E3Config(base=e2.Config(spec=three, requested=((2, False),), precached=(0,)), backend='fork', max_workers=1, liveness_choice=False), dev))
     # threaded slice: the result-consumer helper thread is a real thread under a baton scheduler, so an
     # interrupt that lands on consumer_thread.join() leaves a *stale* consumer that keeps running
     # concurrently with the rest of the shutdown; worker liveness is a choice here (a result can sit in
@@ -323,7 +341,7 @@ def run(tier: str, seed: int) -> Result:
         thr = kind.endswith('+thr')
         seen_sites = {}
         for idx, s in enumerate(sites, start=1):
-            seen_sites.setdefault((s[0], s[1]), idx)
+            seen_sites.setdefault((s[0], s[1]) + tuple(s[3:4]), idx)
         reps = sorted(seen_sites.values())
         if thr:
             # singles: only positions at which a helper thread is alive differ from the synchronous slice
@@ -344,10 +362,10 @@ def run(tier: str, seed: int) -> Result:
         reps_total += len(reps)
         if tier == 'quick':
             sampled = reps[:: max(1, len(reps) // 40)]
-            if kind == 'fork' and cfg.max_workers == 2 and not cfg.base.precached:
+            if kind in ('fork', 'fork+sig') and cfg.max_workers == 2 and not cfg.base.precached:
                 # one harness keeps every distinct line of the process runner / executor as first point:
                 # that is where the bookkeeping of running workers lives
-                crit = [idx for (fn, ln), idx in seen_sites.items() if fn.endswith(os.path.join('runners', 'process.py'))]
+                crit = [idx for key, idx in seen_sites.items() if key[0].endswith(os.path.join('runners', 'process.py')) or key[0] == '<os>']
                 sampled = sorted(set(sampled) | set(crit))
             reps = sampled
         for k1 in reps:
@@ -390,7 +408,7 @@ def run(tier: str, seed: int) -> Result:
                  'representative event per distinct source line (quick: every ~n/40th), second at each of the following 120 (quick) / 400 events; distinct_nontrivial = executions in which the '
                  'interrupt(s) actually fired; threaded slice: the result-consumer helper runs as a real thread under a baton scheduler (switch points: every labtech line of a helper thread, '
                  'every runners/process.py line of the calling thread while a helper is alive, join), interrupts at every position where a helper is alive (first or second interrupt), all '
-                 'thread/OS schedules within the deviation bound; plus real SIGINT (single and double) sent to the process group of real fork/spawn runs while workers are blocked inside run()'),
+                 'thread/OS schedules within the deviation bound; signal-faithful slice (kinds +sig): the same enumeration with the interrupt instants CPython really has - function entry, return of a C call (also in the middle of a statement), loop back-edge - plus instants inside the OS-level calls of the parent (Process.start with the worker already running, Queue.get, is_alive, terminate, join); plus real SIGINT (single and double) sent to the process group of real fork/spawn runs while workers are blocked inside run()'),
         'samples': [{'harness': [k, cfg.brief()], 'line_events': counts[(k, repr(cfg))][0]} for k, cfg, d in hs[:4]]
                    + [{'threaded_harness': k, 'interrupt_positions_with_live_helper': v} for k, v in list(thr_positions.items())[:2]],
         'line_events_per_harness': {f'{k}:{i}': counts[(k, repr(cfg))][0] for i, (k, cfg, d) in enumerate(hs)},
@@ -420,11 +438,13 @@ def replay(payload) -> int:
         return 1 if found else 0
     kind = payload['kind']
     cfg = e2.Config.from_json(payload['cfg']) if kind.startswith('serial') else e3.E3Config.from_json(payload['cfg'])
-    intr = Interrupts(payload['k1'], payload['k2'])
+    sig = kind.endswith('+sig')
+    bkind = kind[:-4] if sig else kind
+    intr = Interrupts(payload['k1'], payload['k2'], signal=sig)
     if kind.startswith('serial'):
-        obs = run_once_serial(cfg, around_run=intr, displays=(kind != 'serial'))
+        obs = run_once_serial(cfg, around_run=intr, displays=(bkind != 'serial'))
     else:
-        obs = e3.run_once_e3(cfg, Chooser(payload['choices']), around_run=intr, threaded=kind.endswith('+thr'))
+        obs = e3.run_once_e3(cfg, Chooser(payload['choices']), around_run=intr, threaded=bkind.endswith('+thr'))
         for ev in obs.vworld.events:
             print('  os:', ev)
     for ev in obs.events:
